@@ -141,7 +141,17 @@ def run_case(ctx, c, terms=None):
                 key, err=f"{type(e).__name__}: {e}"), {"kind": "exception"})
             return
         full = d.observable().copy()
-        for w in c["wins"] + [None]:
+        try:                         # populate the caches on the global view
+            d.anomaly()
+            d.phase_mean()
+        except Exception:
+            pass
+        seq = []
+        for w in c["wins"]:
+            seq.append(w)
+            if ctx.rng.random() < 0.4:
+                seq.append(None)     # set_global_window() in between
+        for w in seq + [None]:
             ctx.stat("window=" + (w["kind"] if w else "restore"))
             wk = dict(key, window=w)
             try:
